@@ -41,8 +41,16 @@ pub fn make_histories_sized(seed: u64, n: usize, maxdim: usize, maxextra: u64) -
         let mut calls = vec![];
         let mut have_ref = false;
         let mut tr = rng.byte();
+        // temporal references: increasing, all equal, or drawn from two values (so that disposable
+        // pictures share the reference's number: storage keyed by it must still be unambiguous)
+        let tr_policy = rng.below(4);
+        let tr0 = tr;
         for _ in 0..len {
-            tr = tr.wrapping_add(1);
+            tr = match tr_policy {
+                0 | 1 => tr.wrapping_add(1),
+                2 => tr0,
+                _ => tr0.wrapping_add(rng.below(2) as u8),
+            };
             let mut cfg = gen_cfg(&mut rng, flavour, w, h);
             cfg.tr = tr;
             // before any intra picture: predicted pictures that find no reference (and, in standard mode,
@@ -225,6 +233,50 @@ fn ladder(ctx: &Ctx, rep: &mut Report) {
             if ok {
                 rep.count("ladder_long_interleavings_equal");
             }
+        }
+    }
+    // static scenes padded with stuffing: two instances take turns decoding predicted pictures that consist
+    // of stuffing codes and not-coded macroblocks only (no coded macroblock anywhere), until the stuffing
+    // codes seen by the process add up to far more than 2^16. Every call must succeed and repeat the picture.
+    for (per_picture, pictures) in [(700usize, 8usize), (3000, 6), (3000, 50)] {
+        let mut decs = [Dec::new(true, false), Dec::new(true, false)];
+        let cfg = crate::mon::ladder::cfg_for(&mut rng, Flavour::Sor(0), 32, 32, 0);
+        let key = crate::mon::ladder::large_intra(&mut rng, &cfg).encode();
+        let mut want = vec![];
+        let mut ok = true;
+        for d in decs.iter_mut() {
+            if d.decode(&key) != Outcome::Ok {
+                ok = false;
+            }
+            want.push(d.planes());
+        }
+        let mut total = 0usize;
+        'outer: for i in 0..pictures {
+            let mut c = cfg.clone();
+            c.tr = cfg.tr.wrapping_add(1 + i as u8);
+            let hdr = make_header(&c, 1, &mut rng);
+            let mut groups: Vec<(u32, u32)> = Vec::with_capacity(2 * per_picture);
+            for _ in 0..per_picture {
+                groups.push((0, 1));
+                groups.push((1, 9));
+            }
+            let mut mbs = vec![crate::model::syntax::SymMb::Raw(groups)];
+            mbs.extend((0..4).map(|_| crate::model::syntax::SymMb::NotCoded));
+            let pic = crate::model::syntax::SymPicture { hdr, w: 32, h: 32, mbs, stuffing: vec![] }.encode();
+            for (k, d) in decs.iter_mut().enumerate() {
+                let out = d.decode(&pic);
+                total += per_picture;
+                if out != Outcome::Ok || d.planes() != want[k] {
+                    rep.violation("ladder/static-stuffed-scenes", format!("instance {} call {}: a predicted picture of {} stuffing codes and four not-coded macroblocks gave {} (picture repeated: {}) after the process had parsed {} stuffing codes without a coded macroblock", k, i, per_picture, out.short(), d.planes() == want[k], total), J::obj().set("property", "C17").set("seed", ctx.seed).set("kind", "ladder"));
+                    ok = false;
+                    break 'outer;
+                }
+            }
+        }
+        rep.evaluations += 1;
+        if ok {
+            rep.count("ladder_static_stuffed_scenes_equal");
+            rep.add("ladder_stuffing_codes_parsed", total as u64);
         }
     }
     // bystanders holding large pictures alive while a victim decodes
@@ -452,6 +504,7 @@ pub fn run(ctx: &Ctx) -> (Report, String) {
         rep.require("fresh_process_digests_equal", 2);
         rep.require("ladder_long_interleavings_equal", 28);
         rep.require("ladder_bystanders_equal", 1);
+        rep.require("ladder_static_stuffed_scenes_equal", 3);
         rep.require("isolated_baselines_equal", n_hist as u64);
         rep.require("reverse_order_pass_equal", 1);
     }
